@@ -61,12 +61,14 @@ func (r *RelationTuple) ToProto() *rts.RelationTuple {
 }
 
 func (r *RelationTuple) FromProto(proto *rts.RelationTuple) *RelationTuple {
+	// the generated getters are nil-safe: a nil tuple or a tuple without a subject
+	// message must not panic here (the missing subject is rejected by validation later)
 	r = &RelationTuple{
-		Namespace: proto.Namespace,
-		Object:    proto.Object,
-		Relation:  proto.Relation,
+		Namespace: proto.GetNamespace(),
+		Object:    proto.GetObject(),
+		Relation:  proto.GetRelation(),
 	}
-	switch subject := proto.Subject.Ref.(type) {
+	switch subject := proto.GetSubject().GetRef().(type) {
 	case *rts.Subject_Id:
 		r.SubjectID = pointerx.Ptr(subject.Id)
 	case *rts.Subject_Set:
